@@ -43,7 +43,9 @@ def validateChange (o : ColOpts) (op : OpKind) : Verdict :=
   | .insertTree f =>
     if !multitree then .invalidInput
     else if f > 255 then .invalidInput else .ok
-  | .refTree => if !multitree then .invalidInput else .ok
+  | .refTree =>
+    if !multitree then .invalidInput
+    else if !o.appendOnly && !o.refCounted then .invalidInput else .ok
   | .derefTree e =>
     if !multitree then .invalidInput
     else if o.appendOnly then .invalidConfiguration
